@@ -104,6 +104,36 @@ func c19One(o *out, text string, kind string) {
 			}
 		}
 	}
+	// the list that comes back belongs to the caller: overwriting it changes no later answer - of this statement or of
+	// any other (lists are not shared between statements)
+	if pn == nil {
+		if st2, err := influxql.ParseStatement(text); err == nil {
+			var first, second influxql.ExecutionPrivileges
+			var other1, other2 influxql.ExecutionPrivileges
+			probe, _ := influxql.ParseStatement("DROP DATABASE d")
+			if pn3 := safely(func() {
+				other1, _ = probe.RequiredPrivileges()
+				want := privsSexp(other1)
+				first, _ = st2.RequiredPrivileges()
+				for i := range first {
+					first[i] = influxql.ExecutionPrivilege{Admin: false, Name: "overwritten", Privilege: influxql.NoPrivileges}
+				}
+				second, _ = st2.RequiredPrivileges()
+				fresh, _ := influxql.ParseStatement("CREATE DATABASE e")
+				other2, _ = fresh.RequiredPrivileges()
+				o.checked()
+				probeAgain, _ := probe.RequiredPrivileges()
+				if privsSexp(probeAgain) != want || len(other2) != 1 || !other2[0].Admin {
+					o.fail("", fmt.Sprintf("after the list returned for %q was overwritten by its caller, DROP DATABASE requires %v and CREATE DATABASE %v", text, probeAgain, other2), rp)
+				}
+			}); pn3 == nil {
+				ps0, _ := st.RequiredPrivileges()
+				if privsSexp(second) != privsSexp(ps0) {
+					o.fail("", fmt.Sprintf("after the list returned for %q was overwritten by its caller, the statement answers %v", text, second), rp)
+				}
+			}
+		}
+	}
 	o.checked()
 	if pn != nil {
 		o.fail("", fmt.Sprintf("RequiredPrivileges of %q panics: %v", text, pn), rp)
@@ -192,7 +222,7 @@ func propC19(o *out, r *rng, thorough bool) {
 		}
 	}
 	// deep nesting, many sources, every target form
-	for d := 1; d <= 6; d++ {
+	for _, d := range []int{1, 2, 3, 4, 5, 6, 15, 16, 17, 18, 31, 32, 33, 64, 100, 257} {
 		text := "SELECT v FROM "
 		for i := 0; i < d; i++ {
 			text += fmt.Sprintf("(SELECT v FROM db%d..a%d, ", i, i)
